@@ -64,6 +64,10 @@ func (c *countingReader) Read(b []byte) (int, error) {
 	return n, err
 }
 
+// drain buffers are reused (cases run one at a time; after a hang the child
+// stops running cases)
+var drainBufs = map[int][]byte{}
+
 var errZeroSpin = errors.New("pgp2: reader returned (0,nil) 2^20 times in a row without consuming input")
 
 // drain reads r to EOF (or error, or the output cap) with the given buffer
@@ -72,7 +76,11 @@ func drain(r io.Reader, bufSize int, p *progress) (n int64, capped bool, err err
 	if bufSize <= 0 {
 		bufSize = 4096
 	}
-	buf := make([]byte, bufSize)
+	buf := drainBufs[bufSize]
+	if buf == nil {
+		buf = make([]byte, bufSize)
+		drainBufs[bufSize] = buf
+	}
 	zero := 0
 	lastIn := p.in.Load()
 	for {
